@@ -2335,9 +2335,13 @@ impl StorageEngine {
             }
         }
         
+        // Iteration order: (scan_slot(key), key).  The cursor is the slot at which the next call
+        // resumes - a position that adding or deleting OTHER keys cannot shift (a rank in the
+        // sorted list could: a key deleted below the cursor made a later key slide under it).
         all_keys.sort();
+        all_keys.sort_by_cached_key(|k| scan_slot(k));
         
-        let start_pos = if cursor == 0 { 0 } else { cursor as usize };
+        let start_pos = all_keys.partition_point(|k| scan_slot(k) < cursor);
         if start_pos >= all_keys.len() && !all_keys.is_empty() {
             return Ok((0, Vec::new()));
         }
@@ -2346,7 +2350,9 @@ impl StorageEngine {
         let mut keys_examined = 0;
         let mut current_pos = start_pos;
         
-        while keys_examined < max_scan_count * 10 && matching_keys.len() < max_scan_count {
+        // a page never ends between two keys of the same slot
+        while (keys_examined < max_scan_count * 10 && matching_keys.len() < max_scan_count)
+            || same_slot_as_previous(&all_keys, start_pos, current_pos, |k| k.as_slice()) {
             if current_pos >= all_keys.len() {
                 break;
             }
@@ -2371,7 +2377,7 @@ impl StorageEngine {
         let next_cursor = if current_pos >= all_keys.len() {
             0
         } else {
-            current_pos as u64
+            scan_slot(&all_keys[current_pos])
         };
         
         Ok((next_cursor, matching_keys))
@@ -2396,8 +2402,9 @@ impl StorageEngine {
                 
                 let mut fields: Vec<Vec<u8>> = hash.keys().cloned().collect();
                 fields.sort();
+                fields.sort_by_cached_key(|f| scan_slot(f));
                 
-                let start_pos = if cursor == 0 { 0 } else { cursor as usize };
+                let start_pos = fields.partition_point(|f| scan_slot(f) < cursor);
                 if start_pos >= fields.len() && !fields.is_empty() {
                     return Ok((0, Vec::new()));
                 }
@@ -2406,7 +2413,8 @@ impl StorageEngine {
                 let mut fields_examined = 0;
                 let mut current_pos = start_pos;
                 
-                while fields_examined < max_scan_count * 10 && (result.len() / if no_values { 1 } else { 2 }) < max_scan_count {
+                while (fields_examined < max_scan_count * 10 && (result.len() / if no_values { 1 } else { 2 }) < max_scan_count)
+                    || same_slot_as_previous(&fields, start_pos, current_pos, |f| f.as_slice()) {
                     if current_pos >= fields.len() {
                         break;
                     }
@@ -2435,7 +2443,7 @@ impl StorageEngine {
                 let next_cursor = if current_pos >= fields.len() {
                     0
                 } else {
-                    current_pos as u64
+                    scan_slot(&fields[current_pos])
                 };
                 
                 Ok((next_cursor, result))
@@ -2461,8 +2469,9 @@ impl StorageEngine {
                 
                 let mut members: Vec<Vec<u8>> = set.iter().cloned().collect();
                 members.sort();
+                members.sort_by_cached_key(|m| scan_slot(m));
                 
-                let start_pos = if cursor == 0 { 0 } else { cursor as usize };
+                let start_pos = members.partition_point(|m| scan_slot(m) < cursor);
                 if start_pos >= members.len() && !members.is_empty() {
                     return Ok((0, Vec::new()));
                 }
@@ -2471,7 +2480,8 @@ impl StorageEngine {
                 let mut members_examined = 0;
                 let mut current_pos = start_pos;
                 
-                while members_examined < max_scan_count * 10 && result.len() < max_scan_count {
+                while (members_examined < max_scan_count * 10 && result.len() < max_scan_count)
+                    || same_slot_as_previous(&members, start_pos, current_pos, |m| m.as_slice()) {
                     if current_pos >= members.len() {
                         break;
                     }
@@ -2496,7 +2506,7 @@ impl StorageEngine {
                 let next_cursor = if current_pos >= members.len() {
                     0
                 } else {
-                    current_pos as u64
+                    scan_slot(&members[current_pos])
                 };
                 
                 Ok((next_cursor, result))
@@ -2523,12 +2533,13 @@ impl StorageEngine {
                 }
                 
                 items.sort_by(|a, b| a.0.cmp(&b.0));
+                items.sort_by_cached_key(|it| scan_slot(&it.0));
                 
                 if items.len() <= max_scan_count && cursor == 0 && pattern.is_none() {
                     return Ok((0, items));
                 }
                 
-                let start_pos = if cursor == 0 { 0 } else { cursor as usize };
+                let start_pos = items.partition_point(|it| scan_slot(&it.0) < cursor);
                 if start_pos >= items.len() && !items.is_empty() {
                     return Ok((0, Vec::new()));
                 }
@@ -2537,7 +2548,8 @@ impl StorageEngine {
                 let mut items_examined = 0;
                 let mut current_pos = start_pos;
                 
-                while items_examined < max_scan_count * 10 && result.len() < max_scan_count {
+                while (items_examined < max_scan_count * 10 && result.len() < max_scan_count)
+                    || same_slot_as_previous(&items, start_pos, current_pos, |it| it.0.as_slice()) {
                     if current_pos >= items.len() {
                         break;
                     }
@@ -2562,7 +2574,7 @@ impl StorageEngine {
                 let next_cursor = if current_pos >= items.len() {
                     0
                 } else {
-                    current_pos as u64
+                    scan_slot(&items[current_pos].0)
                 };
                 
                 Ok((next_cursor, result))
@@ -2775,6 +2787,33 @@ mod tests {
         // All should succeed without any access time tracking overhead
         assert!(true);
     }
+}
+
+/// Position of an element (key, field, member) in the iteration order of SCAN / HSCAN / SSCAN /
+/// ZSCAN: a fixed hash of its name (FNV-1a 64, as for the shards), cut to 53 bits so that a
+/// cursor survives a round trip through a Lua or JSON number.  Elements are visited in the order
+/// of (scan_slot(name), name) and a cursor is the slot at which the next call resumes, so an
+/// element that exists during a whole iteration is returned exactly once, whatever else is added
+/// or deleted meanwhile.  Slot 0 can only be reached by the first call, so a returned cursor 0
+/// still means "done".
+fn scan_slot(name: &[u8]) -> u64 {
+    const FNV_OFFSET: u64 = 0xcbf29ce484222325;
+    const FNV_PRIME: u64 = 0x100000001b3;
+    
+    let mut hash = FNV_OFFSET;
+    for &byte in name {
+        hash ^= byte as u64;
+        hash = hash.wrapping_mul(FNV_PRIME);
+    }
+    
+    hash >> 11
+}
+
+/// True when `pos` is inside the page that started at `start` and the element at `pos` has the
+/// same slot as the one before it: such elements are returned together, because the next cursor
+/// (a slot) could not tell them apart.
+fn same_slot_as_previous<T>(items: &[T], start: usize, pos: usize, name: impl Fn(&T) -> &[u8]) -> bool {
+    pos > start && pos < items.len() && scan_slot(name(&items[pos])) == scan_slot(name(&items[pos - 1]))
 }
 
 /// Glob pattern matching over bytes (keys are binary-safe: `?` and classes consume one byte,
